@@ -459,6 +459,36 @@ def decl_order(ctx, q):
     return [fl["name"] for fl in vs[0]["fields"]] if vs else None
 
 
+_CENSUS_IGNORE = ("tracing", "tracing_core", "vise", "std::fmt", "core::fmt", "alloc::fmt")
+
+
+def census_of(ctx, f0):
+    """non-std ingredients (calls of workspace / third-party functions with their constant operands, workspace constructors)
+    of every call in a function and in the closures / coroutines nested in it; logging and metrics excluded"""
+    items = set()
+    st = [f0]
+    seen = set()
+    while st:
+        g = st.pop()
+        if id(g) in seen:
+            continue
+        seen.add(id(g))
+        st.extend(g.children)
+        T = ctx.T(g)
+        SE = Skel(ctx)
+        for b in g.blocks:
+            t = b["t"]
+            if t["k"] == "call" and "decl" in t["f"]:
+                if t.get("exp") and str(t.get("exp")).startswith(_CENSUS_IGNORE):
+                    continue
+                try:
+                    SE.walk(T.call_term(t))
+                except Exception:
+                    continue
+        items |= {i for i in SE.items if i.startswith(("call:", "agg:")) and not i.startswith("call:support::")}   # support:: = internals of tokio's select!
+    return sorted(i for i in items if not i.split(":", 1)[1].startswith(("tracing", "Span::", "Metrics", "Level", "Callsite", "DefaultCallsite", "ValueSet", "FieldSet", "Interest", "Event::", "Identifier", "Metadata", "Kind", "__macro", "Field::")))
+
+
 def load():
     return common.load_table("pins.json")
 
@@ -513,6 +543,14 @@ def run(ctx, prop):
                 ctx.ob(R, key, True, "renamed to %s; %s" % (cands[0].name, e["why"]), cands[0].loc())
             else:
                 ctx.ob(R, key, False, "pinned function %s not found (anchor missing)" % q)
+            continue
+        if "census" in e:
+            # a primitive whose result cannot be read as a term (it waits, loops or locks): pinned by its ingredients - every
+            # workspace / third-party call the reviewed body makes (with constant operands) must still be made somewhere in it
+            cur = set(census_of(ctx, fs[0]))
+            gone = sorted(set(e["census"]) - cur)
+            ctx.ob(R, key, not gone, ("%s no longer makes the calls %s that its reviewed body makes (%s)" % (_short(q), gone, e["why"])) if gone
+                   else "%s: all %d reviewed ingredients present" % (e["why"], len(e["census"])), fs[0].loc())
             continue
         f = ctx.F.body_of(fs[0]) if hasattr(ctx.F, "body_of") else fs[0]
         rows, is_open, calls = rows_of(ctx, f)
